@@ -8,10 +8,11 @@ Rec == ndJsonDeserialize(IOEnv.TRACE)
 VARIABLES l,        \* next event
           areas,    \* C14: <<track area, licence>> pairs seen so far
           codes,    \* C14: track codes seen so far
-          dists     \* C14: <<track code, distance in 1/1000 mile>> of the configurations that have one
+          dists,    \* C14: <<track code, distance in 1/1000 mile>> of the configurations that have one
+          names     \* C14: <<track code, complete name>>
 E == Rec[l]
 IsEvent(e) == l <= Len(Rec) /\ Rec[l].ev = e /\ l' = l + 1
-Same == UNCHANGED <<areas, codes, dists>>
+Same == UNCHANGED <<areas, codes, dists, names>>
 
 Lim(v, w) == IF w = 2 THEN <<v[1], 0, 0, 0>> ELSE <<v[1], v[2], 0, 0>>
 
@@ -42,7 +43,7 @@ TVehRead == /\ IsEvent("VehRead") /\ Same
                /\ IF c.k = "error" THEN E.res = "err"
                   ELSE /\ E.res = "ok" /\ E.k = c.k /\ E.name = c.name /\ E.id = c.id
                        /\ E.re = E.bytes                           \* re-encodes to the identical bytes
-                       /\ (c.k = "std" => E.disp = c.name)         \* printed name = wire name
+                       /\ E.disp = VehDisplay(c)                   \* printed name = wire name / skin id in hexadecimal
                        /\ E.is_mod = (c.k = "mod") /\ E.is_builtin = ~E.is_mod
                        /\ E.lic = VehLicence(c)
 \* a box of identifiers on which the implementation's classification is uniform (exhaustive sweep, compressed)
@@ -67,6 +68,14 @@ TTrackRow == /\ IsEvent("TrackRow")
              \* a reversed configuration is the same road: whichever of the two rows is seen second must agree with the first
              /\ \A p \in dists : (TrackBaseCfg(p[1]) = TrackBaseCfg(E.code) /\ E.mile > 0) => p[2] = E.mile
              /\ dists' = IF E.mile > 0 THEN dists \cup {<<E.code, E.mile>>} ELSE dists
+             \* the complete name starts with the area's name; a reversed / open configuration is named after its base
+             \* configuration plus " R" / " X" / " Y"
+             \* (the configurations of the autocross area have names of their own: Skid Pad, Drag Strip, ...)
+             /\ AreaKey(E.code) = "AU" \/ LET an == AreaName[AreaKey(E.code)] IN Len(E.full) >= Len(an) /\ \A i \in 1..Len(an) : E.full[i] = an[i]
+             /\ \A p \in names :
+                   /\ (TrackSuffix(E.code) # 0 /\ p[1] = TrackStem(E.code)) => E.full = p[2] \o <<32, TrackSuffix(E.code)>>
+                   /\ (TrackSuffix(p[1]) # 0 /\ TrackStem(p[1]) = E.code) => p[2] = E.full \o <<32, TrackSuffix(p[1])>>
+             /\ names' = names \cup {<<E.code, E.full>>}
              /\ E.code \notin codes
              /\ \A p \in areas : p[1] = TrackArea(E.code) => p[2] = E.lic       \* one licence per area
              /\ codes' = codes \cup {E.code} /\ areas' = areas \cup {<<TrackArea(E.code), E.lic>>}
@@ -85,7 +94,7 @@ TGvCmp == /\ IsEvent("GvCmp") /\ Same
 
 TNext == \/ (TDurDec /\ Same) \/ (TDurEnc /\ Same) \/ (TLapsDec /\ Same) \/ (TLapsEnc /\ Same)
          \/ TVehRead \/ TVehBox \/ TTrackRow \/ TTrackNon \/ TTrackEnd \/ TGvParse \/ TGvCmp
-TSpec == l = 1 /\ areas = {} /\ codes = {} /\ dists = {} /\ [][TNext]_<<l, areas, codes, dists>>
+TSpec == l = 1 /\ areas = {} /\ codes = {} /\ dists = {} /\ names = {} /\ [][TNext]_<<l, areas, codes, dists, names>>
 
 Accepted ==
   LET reached == TLCGet("stats").diameter IN
